@@ -124,6 +124,14 @@ func VxH12() {
 		c.In("in").From(s1.Out())
 		c.In("in").From(s2.Out())
 		c.In("in").From(s3.Out())
+	case 7: // logging: tasks that log audit lines while another task logs a warning
+		src := NewFileSource(wf, "src", "in1.txt", "in2.txt", "in3.txt")
+		a := wf.NewProc("a", "vcmd r:{i:in} w:{o:out} # {i:in|%.dat}")
+		a.SetOut("out", "{i:in}.a")
+		a.In("in").From(src.Out())
+		b := wf.NewProc("b", "vcmd r:{i:in} w:{o:out}")
+		b.SetOut("out", "{i:in}.b")
+		b.In("in").From(src.Out())
 	}
 	vxPreemptBudget(vxGet("preempt"))
 	vxRaceLog(true)
